@@ -221,6 +221,12 @@ func genUUID(r *RNG) uuid.UUID {
 
 // genPlan precomputes the whole history (a list of ops per block) from the seed so that the
 // same plan can be replayed on several apps.
+type genAttrRef struct {
+	nm   string
+	acct sdk.AccAddress
+	val  string
+}
+
 func genPlan(r *RNG, nBlocks int, addrs []sdk.AccAddress) ([][]genOp, [][]genTx, []string) {
 	var plan [][]genOp
 	var txplan [][]genTx
@@ -228,6 +234,7 @@ func genPlan(r *RNG, nBlocks int, addrs []sdk.AccAddress) ([][]genOp, [][]genTx,
 	pick := func() sdk.AccAddress { return addrs[r.Intn(len(addrs))] }
 	markers := []string{}
 	markerMgr := map[string]int{}
+	var prevAttrs []genAttrRef
 	names := []string{}
 	scopeSpecs := []metadatatypes.MetadataAddress{}
 	nextMarket := uint32(1)
@@ -255,6 +262,12 @@ func genPlan(r *RNG, nBlocks int, addrs []sdk.AccAddress) ([][]genOp, [][]genTx,
 				nm := names[r.Intn(len(names))]
 				acct := pick()
 				val := fmt.Sprintf("v%d", r.Intn(5))
+				if len(prevAttrs) > 0 && r.Chance(30) {
+					// re-add an identical (name, account, value): SetAttribute overwrites the record
+					pa := prevAttrs[r.Intn(len(prevAttrs))]
+					nm, acct, val = pa.nm, pa.acct, pa.val
+				}
+				prevAttrs = append(prevAttrs, genAttrRef{nm, acct, val})
 				var exp *time.Time
 				if r.Chance(50) {
 					e := time.Unix(1_700_000_000+int64(r.Intn(nBlocks*7+20)), 0).UTC()
@@ -1251,6 +1264,12 @@ func genCase(t *testing.T, seed uint64, nBlocks int, out *Out) (string, string) 
 					if testing.Verbose() {
 						fmt.Println("ATTRCOUNTER original", cc)
 					}
+				} else if genAttrCounters(c1, true) != "" && len(bad) == 0 {
+					// the ORIGINAL chain's counters exceed its record counts (SetAttribute counts an
+					// overwrite of an identical attribute): the re-initialised chain recounts, so this
+					// part of the attribute store is not reproduced (known finding
+					// C18-attribute-counter-not-reproduced; theorem C18Attr.round_trip_normalises_lookup_and_queue)
+					bad = append(bad, "attribute-counter-overcount")
 				}
 				if len(bad) > 0 {
 					sort.Strings(bad)
